@@ -683,3 +683,37 @@ def holds_copy_of(fx, cdef, reg, src):
     decls = {norm(st.value) for st in ast.walk(cdef) if isinstance(st, ast.Assign) and isinstance(st.value, ast.Call) and
              norm(st.value.func) in ("Signal", "Signal.like") and any(norm(t) == src for t in st.targets)}
     return (len(decls) == 1 and txt in decls), txt
+
+
+def stage_depths(fx, out, inputs, mem_ports=(), max_depth=4, context=None):
+    """{input: set of register depths} over all def-use paths from the module inputs `inputs` to `out`: combinational drivers keep
+    the depth, a clocked driver (or the synchronous read of a memory port in `mem_ports`: dat_r <- adr) adds one.  Guards count
+    as uses.  Paths are followed on base names (subscripts stripped)."""
+    pg = context.pyguards if context is not None else []
+    res = {}
+    seen = set()
+    todo = [(strip_subscripts(p), 0) for p in paths(out)] if not isinstance(out, str) else [(out, 0)]
+    while todo:
+        p, d = todo.pop()
+        if (p, d) in seen or d > max_depth:
+            continue
+        seen.add((p, d))
+        hit = [i for i in inputs if p == i or p.startswith(i + "[") or p.startswith(i + ".")]
+        if hit:
+            res.setdefault(hit[0], set()).add(d)
+            continue
+        for mp in mem_ports:
+            if p == mp + ".dat_r":
+                todo.append((mp + ".adr", d + 1))
+        for a in fx.assigns:
+            if a.kind != "eq" or (a.t != p and strip_subscripts(a.t) != p):
+                continue
+            if not compatible(a.pyguards, pg):
+                continue
+            step = 0 if a.domain == "comb" else 1
+            new = paths(a.value)
+            for c, _ in a.guards:
+                new.extend(paths(c))
+            for n in new:
+                todo.append((strip_subscripts(n), d + step))
+    return res
